@@ -18,6 +18,7 @@ import (
 type verifBatchRing struct {
 	sets map[uint32]ReplicationSet
 	n    int
+	rf   int
 }
 
 func (r *verifBatchRing) Get(key uint32, _ Operation, _ []InstanceDesc, _, _ []string) (ReplicationSet, error) {
@@ -27,7 +28,7 @@ func (r *verifBatchRing) Get(key uint32, _ Operation, _ []InstanceDesc, _, _ []s
 	}
 	return rs, nil
 }
-func (r *verifBatchRing) ReplicationFactor() int { return 3 }
+func (r *verifBatchRing) ReplicationFactor() int { return r.rf }
 func (r *verifBatchRing) InstancesCount() int    { return r.n }
 
 type verifClientErr struct{ s string }
@@ -75,19 +76,30 @@ func TestVerifBounded_C10_Batch(t *testing.T) {
 	type scenario struct {
 		name string
 		sets []ReplicationSet // per key
+		n    int              // instances in the ring (0: 3)
+		rf   int              // replication factor the ring reports (0: 3)
 	}
 	scenarios := []scenario{
-		{"1key-3rep-tol1", []ReplicationSet{mk([]int{0, 1, 2}, 1)}},
-		{"1key-3rep-tol0", []ReplicationSet{mk([]int{0, 1, 2}, 0)}},
-		{"1key-1rep-tol0", []ReplicationSet{mk([]int{0}, 0)}},
-		{"2keys-3rep-tol1", []ReplicationSet{mk([]int{0, 1, 2}, 1), mk([]int{0, 1, 2}, 1)}},
-		{"2keys-mixed", []ReplicationSet{mk([]int{0, 1}, 0), mk([]int{1, 2, 0}, 1)}},
-		{"2keys-disjointish", []ReplicationSet{mk([]int{0, 1, 2}, 1), mk([]int{2}, 0)}},
-		{"3keys", []ReplicationSet{mk([]int{0, 1, 2}, 1), mk([]int{1, 2}, 1), mk([]int{0}, 0)}},
+		{"1key-3rep-tol1", []ReplicationSet{mk([]int{0, 1, 2}, 1)}, 0, 0},
+		{"1key-3rep-tol0", []ReplicationSet{mk([]int{0, 1, 2}, 0)}, 0, 0},
+		{"1key-1rep-tol0", []ReplicationSet{mk([]int{0}, 0)}, 0, 0},
+		{"2keys-3rep-tol1", []ReplicationSet{mk([]int{0, 1, 2}, 1), mk([]int{0, 1, 2}, 1)}, 0, 0},
+		{"2keys-mixed", []ReplicationSet{mk([]int{0, 1}, 0), mk([]int{1, 2, 0}, 1)}, 0, 0},
+		{"2keys-disjointish", []ReplicationSet{mk([]int{0, 1, 2}, 1), mk([]int{2}, 0)}, 0, 0},
+		{"3keys", []ReplicationSet{mk([]int{0, 1, 2}, 1), mk([]int{1, 2}, 1), mk([]int{0}, 0)}, 0, 0},
+		// skewed batches: one instance serves more keys than the per-instance estimate keys*(RF+1)/instances the grouping
+		// code sizes its lists with (4 and 6 instances in the ring, few of them used)
+		{"skew-4inst-rf1", []ReplicationSet{mk([]int{0}, 0), mk([]int{0}, 0), mk([]int{1}, 0)}, 4, 1},
+		{"skew-6inst-rf1", []ReplicationSet{mk([]int{1}, 0), mk([]int{0}, 0), mk([]int{1}, 0), mk([]int{2}, 0)}, 6, 1},
+		{"skew-6inst-rf3", []ReplicationSet{mk([]int{0, 1, 2}, 1), mk([]int{0, 1, 2}, 1), mk([]int{0, 1, 2}, 1)}, 6, 3},
+		{"skew-9inst-rf3", []ReplicationSet{mk([]int{0, 1, 2}, 1), mk([]int{2, 1, 0}, 1), mk([]int{0, 1}, 0), mk([]int{2, 0, 1}, 1)}, 9, 3},
 	}
 	outcomes := 3 // 0 ok, 1 client error, 2 server error
 	for _, sc := range scenarios {
-		ring := &verifBatchRing{sets: map[uint32]ReplicationSet{}, n: 3}
+		ring := &verifBatchRing{sets: map[uint32]ReplicationSet{}, n: 3, rf: 3}
+		if sc.n > 0 {
+			ring.n, ring.rf = sc.n, sc.rf
+		}
 		keys := make([]uint32, len(sc.sets))
 		used := map[string][]int{}
 		for k, rs := range sc.sets {
@@ -324,7 +336,7 @@ func TestVerifBounded_C10_Batch(t *testing.T) {
 		}
 		cancel()
 	}
-	fmt.Printf("BOUNDED-CASES name=C10_Batch n=%d distinct=%d bound=7 scripted rings (<=3 keys, <=3 replicas, tolerance 0..1) x every outcome vector {ok, client error, server error}^replicas x completion orders (all; quick: half for the larger rings), replica calls run one at a time; plus the empty key list\n", cases, cases)
+	fmt.Printf("BOUNDED-CASES name=C10_Batch n=%d distinct=%d bound=11 scripted rings (<=4 keys, <=3 replicas used out of 3..9 instances, tolerance 0..1, incl. skewed batches where one instance serves more keys than the grouping code's per-instance estimate) x every outcome vector {ok, client error, server error}^replicas x completion orders (all; quick: half for the larger rings), replica calls run one at a time; plus the empty key list\n", cases, cases)
 	if fails > 0 {
 		t.Fatalf("%d mismatches", fails)
 	}
